@@ -207,7 +207,7 @@ impl Space for InstantsZoned {
         let otext = offset_text(off);
         let tz = TimeZone::try_from_str(&otext).unwrap();
         out.nontrivial += 1;
-        for t in [1_614_834_367_008_009_010i128, -86_399_999_998_997_996, 0, 253_402_300_799_999_999_999, -62_198_755_200_000_000_000] {
+        for t in [1_614_834_367_008_009_010i128, -86_399_999_998_997_996, 0, 253_402_300_799_999_999_999, -62_198_755_200_000_000_000, tmc_ref::r1::MAX_INSTANT_NS, -tmc_ref::r1::MAX_INSTANT_NS, -tmc_ref::r1::MAX_INSTANT_NS + 1] {
             let local = t + off as i128 * 1_000_000_000;
             let (day, tod) = (local.div_euclid(NS_PER_DAY) as i64, local.rem_euclid(NS_PER_DAY));
             let (y, m, d) = civil_from_days(day);
@@ -258,7 +258,13 @@ impl Space for InstantsZoned {
                             if stz != 0 {
                                 let keeps_cal = sm != ShowCal::Never || cal_id == "iso8601";
                                 let back = call(|| ZonedDateTime::from_str_with_provider(&want, Disambiguation::Reject, OffsetDisambiguation::Reject, &ErrProvider));
-                                out.lockstep("ZonedDateTime::from_str(format(v)) = v", &Ok(t), &back, |a, b| b.epoch_nanoseconds().as_i128() == *a && b.timezone() == &tz && (!keeps_cal || b.calendar().identifier() == cal_id), attrs);
+                                // the specification refuses a wall-clock date on the first day of the date range when an
+                                // offset is to be matched (CheckISODaysRange): such a text does not parse back
+                                let expect = if so && day < -100_000_000 { Err(temporal_rs::error::ErrorKind::Range) } else { Ok(t) };
+                                if expect.is_err() {
+                                    out.unjudged += 1;
+                                }
+                                out.lockstep("ZonedDateTime::from_str(format(v)) = v", &expect, &back, |a, b| b.epoch_nanoseconds().as_i128() == *a && b.timezone() == &tz && (!keeps_cal || b.calendar().identifier() == cal_id), attrs);
                             }
                         }
                     }
